@@ -1,0 +1,17 @@
+//go:build !verif
+
+package log
+
+import (
+	"bytes"
+	"time"
+)
+
+// Verification hooks (see verif_on.go). With the build tag "verif" off they are
+// empty and inlined away.
+
+func verifNow(t time.Time) time.Time              { return t }
+func verifRoll(c *RollingFileAppender, point int) {}
+func verifBuf(op int, b *bytes.Buffer)            {}
+func verifEvt(op int, e *Event)                   {}
+func verifAsync(c *AsyncLogger, point int)        {}
